@@ -686,6 +686,20 @@ def r_scalar_moves(name):
 
 
 @resolver
+def r_sqrt_round(name):
+    # _mm512_sqrt_round_ps/pd (clang: a macro over __builtin_ia32_sqrtps512(a, rounding); the masked forms go through select)
+    m = re.match(r'^__builtin_ia32_sqrtp(s|d)512$', name)
+    if m:
+        b = 32 if m.group(1) == 's' else 64
+        n = 512 // b
+        f = ('avm_f2u(avm_sqrtf_er(avm_u2f(x), r))' if b == 32 else 'avm_d2u(avm_sqrt_er(avm_u2d(x), r))')
+        body = '  m512 o = {{0}};\n  for (int i = 0; i < %d; i++) { %s x = AVM_L%d(a, i); AVM_S%d(o, i, %s); }\n  return o;\n' % (
+            n, 'uint32_t' if b == 32 else 'uint64_t', b, b, f)
+        return Model(name, 'm512', [('m512', 'a'), ('int', 'r')], body)
+    return None
+
+
+@resolver
 def r_mul_wide(name):
     m = re.match(r'^_mm(256|512)?_mul_(epu32|epi32)$', name)
     if m:
